@@ -256,9 +256,12 @@ def brackets(in_file, in_encoding, **params):
                             except StopIteration:
                                 raise ValueError("no sentence after tree")
                             try:
-                                while lextoken != "\n":
+                                # the sentence ends with the first whitespace
+                                # that contains a newline (blank lines may
+                                # follow)
+                                while not (lexclass == "WS" and "\n" in lextoken):
                                     lextoken, lexclass = next(lexer)
-                                    if lextoken != ' ':
+                                    if lexclass != "WS":
                                         tokenmap[position] = lextoken
                                         position += 1
                             except StopIteration:
